@@ -64,6 +64,16 @@ var blockCores = []string{
 type cancelReq struct {
 	Src     string `json:"src"`
 	AfterMs int    `json:"after_ms"`
+	NoLate  bool   `json:"no_late"` // skip the late-probe observation (fast repetitions)
+}
+
+// several script goroutines racing on one buffered channel: the cancellation must reach every one of
+// them whatever the interleaving (repeated many times; each run is one schedule)
+var raceCores = []struct{ name, src string }{
+	{"race-send", "c = make(chan int64, 1)\ngo func() {\nfor {\nc <- 1\n}\n}()\ngo func() {\nfor {\n<-c\n}\n}()\nfor {\nc <- 2\n}"},
+	{"race-send3", "c = make(chan int64, 2)\ngo func() {\nfor {\nc <- 1\n}\n}()\ngo func() {\nfor {\nc <- 3\n}\n}()\ngo func() {\nfor x in c {\n}\n}()\nfor {\nc <- 2\n}"},
+	{"race-recv", "c = make(chan int64, 1)\ngo func() {\nfor {\nc <- 1\n}\n}()\ngo func() {\nfor {\n<-c\n}\n}()\nfor {\nv = <-c\n}"},
+	{"race-recv-ok", "c = make(chan int64, 1)\ngo func() {\nfor {\nc <- 1\n}\n}()\ngo func() {\nfor {\nv, ok = <-c\n}\n}()\nfor {\nv, ok = <-c\n}"},
 }
 
 type cancelResp struct {
@@ -114,6 +124,10 @@ func cancelInWorker(req cancelReq) cancelResp {
 		mu.Lock()
 		resp.Trace = n
 		mu.Unlock()
+		if req.NoLate {
+			resp.TraceLate = resp.Trace
+			return resp
+		}
 		time.Sleep(80 * time.Millisecond)
 		mu.Lock()
 		resp.TraceLate = n
@@ -238,8 +252,32 @@ func streamCancel(o *Out, r *rand.Rand, n int, thorough bool) {
 		}
 		wcs = sel
 	}
+	// 4. schedule-dependent cases: the same racing program again and again, cancelled after 1-4 ms
+	reps := 60
+	if thorough {
+		reps = 1500
+	}
+	type wcr struct {
+		wc
+		after  int
+		noLate bool
+	}
+	var runs []wcr
 	for _, c := range wcs {
-		b, _ := json.Marshal(cancelReq{Src: c.src, AfterMs: 30})
+		runs = append(runs, wcr{c, 30, false})
+	}
+	for i := 0; i < reps; i++ {
+		for _, c := range raceCores {
+			runs = append(runs, wcr{wc{c.name, c.src}, 1 + i%4, true})
+		}
+	}
+	notHonoured := map[string]int{}
+	for _, cr := range runs {
+		c := cr.wc
+		if notHonoured[c.name] >= 2 {
+			continue // already reported; every further hit costs a worker restart
+		}
+		b, _ := json.Marshal(cancelReq{Src: c.src, AfterMs: cr.after, NoLate: cr.noLate})
 		ans := runIsolatedRaw("cancel", string(b), 4*time.Second)
 		o.Sum.Evaluations++
 		o.Sum.Hist["wallclock:"+c.name]++
@@ -249,6 +287,7 @@ func streamCancel(o *Out, r *rand.Rand, n int, thorough bool) {
 			continue
 		}
 		if !resp.Returned {
+			notHonoured[c.name]++
 			stopWorker() // the child leaves after a run it could not stop; start a fresh one
 		}
 		switch {
